@@ -156,6 +156,12 @@ func (ft *funcTrans) loopEnv(li *loopInfo, pick func(*ssa.Phi) Term) map[string]
 			if l == li {
 				t = pick(phi)
 			} else {
+				// phis of enclosing loops are dominating definitions like any other: namesAtHeader has
+				// bound them already, and a later assignment inside that loop (x += v before an inner
+				// loop) must win over the outer header's phi
+				if phi.Comment != "rangeindex" {
+					continue
+				}
 				v := ft.vals[phi]
 				if v == nil {
 					continue
